@@ -47,7 +47,7 @@ Theorem remove_conn_sets_reason : forall n cid r c p,
              p_conn p' = None /\ p_lastdisc p' = Some (n_now n) /\ p_reason p' <> None.
 Proof. exact NodeD.remove_conn_sets_reason. Qed.
 
-(* ---- invariant 3 (C13): under cer_guard (no peer named "", clauses i and ii) ---- *)
+(* ---- invariant 3 (C13): under cer_guard (no peer named "", clause i') ---- *)
 Theorem C13_peer_conn_live : forall n0 n, reach_c n0 n ->
   forall p cid, List.In p (n_peers n) -> p_conn p = Some cid ->
   exists c, List.In c (n_conns n) /\ c_id c = cid /\ c_node_name c = p_name p.
@@ -104,29 +104,45 @@ Theorem C13_ready_flag_removed : forall n cid r c i a, get_conn n cid = Some c -
   List.nth_error (n_apps n') i = Some (if any_peer_ready n' (app_peers n' i) then a else set_aready a false).
 Proof. exact NodeD.C13_ready_flag_removed. Qed.
 
-(* ---- FINDING (C13), clause (i) of the guard is needed: a second CER on the same (inbound)
-   connection.  Peers b, c; an accepted connection sends CER "b" then CER "c": the node name stays b,
-   the host identity becomes c and _assign_peer_connection files the connection under c as well; when
-   the connection closes remove_peer_connection clears only b (found by node name): c.connection
-   dangles.  (The former witness -- a CEA carrying a foreign Origin-Host -- is no longer a
-   counterexample: the repaired receive_cea closes the connection.) ---- *)
-Theorem C13_second_cer_refuted :
-  exists n0 evs, wf_init_g n0 /\
-    let n := fst (run n0 evs) in
-    exists p cid, List.In p (n_peers n) /\ p_conn p = Some cid /\
-                  ~ List.In cid (List.map c_id (n_conns n)) /\ n_conns n = [].
-Proof. exact NodeD.C13_second_cer_refuted. Qed.
+Theorem cer_guard_syn_sufficient : forall n0 evs, wf_init n0 -> cer_guard_syn n0 evs -> cer_guard n0 evs.
+Proof. exact NodeD.cer_guard_syn_sufficient. Qed.
 
-(* ---- FINDING (C13), clause (ii) of the guard is needed: a CER read from an established OUTBOUND
-   connection.  The node dials a (connection 0), the exchange completes; a CER with Origin-Host "b" on
-   connection 0 passes the gate (READY): the connection is filed under b; when it closes only a is
-   cleared. ---- *)
-Theorem C13_outbound_cer_refuted :
-  exists n0 evs, wf_init_g n0 /\
+(* ---- FINDING (C13), clause (i') of the guard is needed.  A CER answered 5010 NO_COMMON_APPLICATION
+   leaves the connection CONNECTED with its node name set.  Peers b, c; an accepted connection sends
+   CER "b" advertising only application 5 (answer 5010), then CER "c" advertising application 4: the
+   node name stays b (it is filled in only when empty), the election sees no rival named c, the host
+   identity becomes c and _assign_peer_connection files the connection under c; when the connection
+   closes remove_peer_connection looks the peer up by node name (b): c.connection dangles.  The
+   history satisfies clause (iii). ---- *)
+Theorem C13_cer_origin_change_refuted :
+  exists n0 evs, wf_init_g n0 /\ conn_guard n0 evs /\
     let n := fst (run n0 evs) in
     exists p cid, List.In p (n_peers n) /\ p_conn p = Some cid /\
                   ~ List.In cid (List.map c_id (n_conns n)) /\ n_conns n = [].
-Proof. exact NodeD.C13_outbound_cer_refuted. Qed.
+Proof. exact NodeD.C13_cer_origin_change_refuted. Qed.
+
+(* ... and C13_one_conn_per_peer: an accepted connection is named p by a CER answered 5010; the node then
+   dials p (p.connection is unset) and completes the exchange on connection 1; a CER "c" on connection 0
+   makes it READY under its old node name: two READY connections named p. *)
+Theorem C13_one_conn_per_peer_unguarded_refuted :
+  exists n0 evs, wf_init_g n0 /\ conn_guard n0 evs /\
+    let n := fst (run n0 evs) in
+    exists c1 c2, List.In c1 (n_conns n) /\ List.In c2 (n_conns n) /\ c_node_name c1 = c_node_name c2 /\
+                  is_ready_state (c_state c1) = true /\ is_ready_state (c_state c2) = true /\ c_id c1 <> c_id c2.
+Proof. exact NodeD.C13_one_conn_per_peer_unguarded_refuted. Qed.
+
+(* ---- FINDING: the hypothesis "no peer is named the empty string" is needed for C13 and C19.  The node
+   dials the peer named ""; receive_cea accepts any Origin-Host on a connection without node name: the
+   CEA of "q" files the connection under q; when it closes only the peer "" is cleared (C13).  With the
+   CEA of "" the connection is READY without host identity and a request is filed under "" (C19).  Both
+   histories satisfy (i') and (iii).  (C12 no longer needs the hypothesis: the former witness, a CER on a
+   READY outbound connection, is ignored.) ---- *)
+Theorem C13_empty_name_refuted :
+  exists n0 evs, wf_init n0 /\ ce_guard n0 evs /\
+    let n := fst (run n0 evs) in
+    exists p cid, List.In p (n_peers n) /\ p_conn p = Some cid /\
+                  ~ List.In cid (List.map c_id (n_conns n)) /\ n_conns n = [].
+Proof. exact NodeD.C13_empty_name_refuted. Qed.
 End FromNodeD.
 
 Print Assumptions FromNodeD.I_ids.
@@ -143,5 +159,7 @@ Print Assumptions FromNodeD.C13_no_conns_no_peer_conn.
 Print Assumptions FromNodeD.C13_election_clears_rivals.
 Print Assumptions FromNodeD.C13_ready_flag_partial.
 Print Assumptions FromNodeD.C13_ready_flag_removed.
-Print Assumptions FromNodeD.C13_second_cer_refuted.
-Print Assumptions FromNodeD.C13_outbound_cer_refuted.
+Print Assumptions FromNodeD.cer_guard_syn_sufficient.
+Print Assumptions FromNodeD.C13_cer_origin_change_refuted.
+Print Assumptions FromNodeD.C13_one_conn_per_peer_unguarded_refuted.
+Print Assumptions FromNodeD.C13_empty_name_refuted.
